@@ -1,5 +1,11 @@
 package checks
 
-import sdk "github.com/cosmos/cosmos-sdk/types"
+import (
+	abci "github.com/cometbft/cometbft/abci/types"
+
+	sdk "github.com/cosmos/cosmos-sdk/types"
+)
 
 type sdkCtx = sdk.Context
+
+type abciAttr = abci.EventAttribute
